@@ -30,8 +30,9 @@ REQ = "From GPA Require Import Telemetry."
 PRELUDE = """
 Definition rl (l : list (bytes * N)) : bytes :=
   flat_map (fun p => concat (repeat (fst p) (N.to_nat (snd p)))) l.
+(* process_events_fast = process_events (theorem C18_fast_model_equal) *)
 Definition run_view (vm : vmmeta) (env : envinfo) (dir : list file) (o : oracle) :=
-  match process_events vm env dir o with
+  match process_events_fast vm env dir o with
   | Some (frs, dir', n, _) => Some (map file_view frs, map fst dir', n)
   | None => None
   end.
@@ -340,13 +341,35 @@ def gen_responses(rng, quick):
     return out
 
 
+LOGGER_MAX = [4096]     # event_logger::MAX_MESSAGE_LENGTH, read from the regenerated constants in run()
+
+
+def logger_message(rng):
+    """a message as the event logger itself can write it: at most MAX_MESSAGE_LENGTH bytes (mostly at
+    or just below the cap), long and dense in the characters xml_escape expands (json-like text)"""
+    cap = LOGGER_MAX[0]
+    n = cap - rng.choice([0, 0, 0, 1, 2, 7, 100, cap // 2])
+    style = rng.choice(["quotes", "json", "mix", "amp", "apos", "plain"])
+    if style == "plain":
+        return [["a", n]]
+    if style == "json":
+        unit = rng.choice(['{"k":"v"},', '"a":"b",', "{'x':'<y>&z'}", '\\"q\\"'])
+        k = n // len(unit.encode())
+        return [[unit, k], ["a", n - k * len(unit.encode())]]
+    piece = {"quotes": '"', "amp": "&", "apos": "'", "mix": rng.choice(['"&', "'<>", '&<>"\''])}[style]
+    dense = int(n * rng.choice([0.4, 0.6, 0.8, 1.0])) // len(piece)
+    rl = [[piece, dense], ["a", n - dense * len(piece)]]
+    rng.shuffle(rl)
+    return [x for x in rl if x[1] > 0]
+
+
 def gen_scenario(rng, sid, env, quick, kind=None):
     vm = gen_host_vm(rng)
     kind = kind or rng.choice(["small", "small", "mixed", "mixed", "boundary", "boundary", "oversize", "nonascii", "many", "empty"])
     nfiles = rng.randint(1, 6)
     if kind == "cancel":
         nfiles = rng.randint(1, 3)
-    total = {"cancel": rng.randint(4, 24), "small": rng.randint(0, 30), "mixed": rng.randint(5, 60), "boundary": rng.randint(2, 12),
+    total = {"logger": 0, "cancel": rng.randint(4, 24), "small": rng.randint(0, 30), "mixed": rng.randint(5, 60), "boundary": rng.randint(2, 12),
              "oversize": rng.randint(1, 12), "nonascii": rng.randint(20, 60),
              "many": rng.choice([120, 250, 400]), "empty": 0}[kind]
     tok = [0]
@@ -407,6 +430,13 @@ def gen_scenario(rng, sid, env, quick, kind=None):
     files = []
     cuts = sorted(rng.randint(0, len(events)) for _ in range(nfiles - 1))
     parts = [events[a:b] for a, b in zip([0] + cuts, cuts + [len(events)])]
+    if kind == "logger":
+        # files exactly like the ones the event logger writes: few (1..10) events per file, every
+        # message within the logger's cap, but expanding 4-6x under xml_escape
+        parts = []
+        for _ in range(rng.randint(1, 3)):
+            k = rng.choice([1, 2, 5, 6, 8, 9, 10, 10, 11])
+            parts.append([gen_event(rng, token(), logger_message(rng) if rng.random() < 0.9 else None) for _ in range(k)])
     for fi, part in enumerate(parts):
         files.append({"name": "%03d-%d.json" % (fi * 7, rng.randint(0, 9)), "events": part})
     # unreadable .json files and entries that are not event files
@@ -600,7 +630,7 @@ def run(ctx):
     disagreements, failures = [], []
 
     # ================= layer 1a: xml_escape =================
-    n_esc = 400 if quick else 3000
+    n_esc = 300 if quick else 3000
     esc_cases = [[], [["&", 1]], [["&amp;", 2]], [["]]>", 3]], [["<![CDATA[", 1], ["]]>", 1]], [["'\"", 5]]]
     while len(esc_cases) < n_esc:
         esc_cases.append(gen_text(rng, 300, controls=True))
@@ -639,7 +669,7 @@ def run(ctx):
             failures.append({"case": {"op": "escape", "s": s[:500]}, "why": why, "impl": txt[:500]})
 
     # ================= layer 1b: TelemetryData on generated events =================
-    n_pure = 150 if quick else 1000
+    n_pure = 120 if quick else 1000
     pure_cases = []
     for i in range(n_pure):
         vm = vm_model_guess(gen_vm(rng)) if rng.random() < 0.8 else vm_model_guess(gen_host_vm(rng))
@@ -695,7 +725,10 @@ def run(ctx):
 
     # ================= layer 2: the real EventReader against the mock host =================
     n_run = 100 if quick else 700
-    kinds = ["cancel"] * (20 if quick else 100) + ["boundary"] * 14 + ["oversize"] * 8 + ["nonascii"] * 6 + ["many"] * (5 if quick else 30) + ["empty"] * 2
+    m = re.search(r"Definition max_message_length : N := (\d+)\.", open(os.path.join(vplib.COQ, "Generated", "Consts.v")).read())
+    if m:
+        LOGGER_MAX[0] = int(m.group(1))
+    kinds = ["cancel"] * (20 if quick else 100) + ["logger"] * (8 if quick else 50) + ["boundary"] * 12 + ["oversize"] * 8 + ["nonascii"] * 6 + ["many"] * (5 if quick else 30) + ["empty"] * 2
     scenarios = []
     for sid in range(n_run):
         scenarios.append(gen_scenario(rng, sid, env, quick, kinds[sid] if sid < len(kinds) else rng.choice(["small", "mixed", "mixed", "boundary", "oversize"])))
